@@ -67,6 +67,114 @@ pub unsafe extern "C" fn clock_gettime(clk: libc::clockid_t, ts: *mut libc::time
     }
 }
 
+// ---------------------------------------------------------------------------
+// ahash (arrow / parquet / datafusion hash tables): its per-table keys come from a process-wide
+// counter that starts at a static's address and is bumped by a heap address (ASLR- and
+// allocator-dependent), mixed with seeds read once per process from getrandom. Both are put
+// behind the simulator: the fixed seeds are drawn under a constant entropy stream at start-up,
+// the counter is a static the child resets from the run's seed.
+// ---------------------------------------------------------------------------
+static AHASH_CTR: std::sync::atomic::AtomicUsize = std::sync::atomic::AtomicUsize::new(0);
+static HASH_ADVERSARIAL: std::sync::atomic::AtomicBool = std::sync::atomic::AtomicBool::new(false);
+static HASH_ADV_IDX: std::sync::atomic::AtomicUsize = std::sync::atomic::AtomicUsize::new(0);
+static HASH_ADV_POOL: std::sync::OnceLock<Vec<usize>> = std::sync::OnceLock::new();
+thread_local! {
+    static HASH_FORCE_NEXT: Cell<Option<usize>> = const { Cell::new(None) };
+}
+struct SimHashSource;
+impl ahash::random_state::RandomSource for SimHashSource {
+    fn gen_hasher_seed(&self) -> usize {
+        use std::sync::atomic::Ordering::Relaxed;
+        if let Some(c) = HASH_FORCE_NEXT.try_with(|f| f.take()).ok().flatten() {
+            return c;
+        }
+        if HASH_ADVERSARIAL.load(Relaxed) {
+            if let Some(p) = HASH_ADV_POOL.get() {
+                return p[HASH_ADV_IDX.fetch_add(1, Relaxed) % p.len()];
+            }
+        }
+        AHASH_CTR.fetch_add(0x9E37_79B9_7F4A_7C15usize, Relaxed)
+    }
+}
+/// Call first thing in `main` (before anything builds an ahash table).
+pub fn install_hash_source() {
+    let r = ahash::random_state::set_random_source(SimHashSource);
+    assert!(r.is_ok(), "ahash random source was already initialised");
+    activate(0x5EED_A4A5_0000_0001);
+    let _ = ahash::RandomState::new(); // draws ahash's once-per-process fixed seeds from the constant stream
+    deactivate();
+    let _ = adversarial_hash_pool(); // computed once here so that forked children inherit it
+}
+/// Per run: the sequence of ahash table keys is a function of the run's seed.
+pub fn reset_hash_source(seed: u64) {
+    use std::sync::atomic::Ordering::Relaxed;
+    AHASH_CTR.store(seed as usize, Relaxed);
+    HASH_ADVERSARIAL.store(false, Relaxed);
+    HASH_ADV_IDX.store((seed % 16) as usize, Relaxed);
+}
+/// The ahash state that the n-th table would get for source value `c`.
+fn hash_state_for(c: usize) -> ahash::RandomState {
+    HASH_FORCE_NEXT.with(|f| f.set(Some(c)));
+    ahash::RandomState::new()
+}
+/// Would a hashbrown table of `buckets` slots (16-wide groups, 7-bit tags) present `first`'s slot as a
+/// candidate when `second` is looked up? (That is when the table's equality closure gets to compare them.)
+fn presents_as_candidate(st: &ahash::RandomState, first: &[u8], second: &[u8], buckets: u64) -> bool {
+    use std::hash::BuildHasher;
+    let (ha, hb) = (st.hash_one(first), st.hash_one(second));
+    if ha >> 57 != hb >> 57 {
+        return false;
+    }
+    let mask = buckets - 1;
+    ((ha & mask).wrapping_sub(hb & mask) & mask) < 16
+}
+/// Legal-but-unlucky hash keys ("buggify" for the hash seam): keys under which the byte strings of +0.0
+/// and -0.0 (f64) meet in one probe group with equal tags in a 4096-capacity table - the situation in which a
+/// hash table that hashes bytes but compares with `==` treats the two as the same entry. Such keys occur about
+/// once per 30 000 tables in production; in adversarial runs every table gets one.
+pub fn adversarial_hash_pool() -> &'static Vec<usize> {
+    HASH_ADV_POOL.get_or_init(|| {
+        let (p, n) = (0.0f64.to_le_bytes(), (-0.0f64).to_le_bytes());
+        let mut out = Vec::new();
+        let mut c: usize = 0x1234_5678;
+        // 8 keys for each insertion order, interleaved
+        let (mut pn, mut np) = (Vec::new(), Vec::new());
+        while pn.len() < 8 || np.len() < 8 {
+            c = c.wrapping_add(0x9E37_79B9_7F4A_7C15usize);
+            let st = hash_state_for(c);
+            if pn.len() < 8 && presents_as_candidate(&st, &p[..], &n[..], 8192) {
+                pn.push(c);
+            } else if np.len() < 8 && presents_as_candidate(&st, &n[..], &p[..], 8192) {
+                np.push(c);
+            }
+        }
+        for i in 0..8 {
+            out.push(pn[i]);
+            out.push(np[i]);
+        }
+        out
+    })
+}
+pub fn debug_hash_probe(seed: u64) {
+    use std::hash::BuildHasher;
+    let (p, n) = (0.0f64.to_le_bytes(), (-0.0f64).to_le_bytes());
+    for j in 0..24usize {
+        let c = (seed as usize).wrapping_add(j.wrapping_mul(0x9E37_79B9_7F4A_7C15usize));
+        let st = hash_state_for(c);
+        let (hp, hn) = (st.hash_one(&p[..]), st.hash_one(&n[..]));
+        println!("j={j} h(+0)={hp:016x} h(-0)={hn:016x} tag {} {} pos {} {} cand(n then p)={} cand(p then n)={}", hp >> 57, hn >> 57, hp & 8191, hn & 8191, presents_as_candidate(&st, &n[..], &p[..], 8192), presents_as_candidate(&st, &p[..], &n[..], 8192));
+    }
+    println!("pool: {:?}", adversarial_hash_pool());
+}
+/// Switch adversarial hash keys on for the rest of this run (a per-run swarm choice of the scenario).
+pub fn set_adversarial_hash(on: bool) {
+    if on {
+        let _ = adversarial_hash_pool();
+        fault_fired("adversarial_hash_keys");
+    }
+    HASH_ADVERSARIAL.store(on, std::sync::atomic::Ordering::Relaxed);
+}
+
 pub fn activate(entropy_seed: u64) {
     SIM_ACTIVE.with(|a| a.set(true));
     ENTROPY.with(|r| r.set(entropy_seed | 1));
